@@ -79,6 +79,37 @@ use crate::nnum::NNum;
 pub use crate::optim::optimize_expr;
 pub use crate::rc::*;
 
+// Verification hooks: compiled only with `--cfg betaveros_noulith_verif`.
+#[cfg(betaveros_noulith_verif)]
+pub mod verif_hooks {
+    pub use crate::nint::NInt;
+    use crate::core::{NErr, NRes};
+    use std::cell::Cell;
+    thread_local! {
+        // Remaining evaluate() steps; negative means unlimited.
+        static FUEL: Cell<i64> = Cell::new(-1);
+    }
+    pub fn set_fuel(n: i64) {
+        FUEL.with(|f| f.set(n));
+    }
+    pub fn get_fuel() -> i64 {
+        FUEL.with(|f| f.get())
+    }
+    pub fn burn_fuel() -> NRes<()> {
+        FUEL.with(|f| {
+            let n = f.get();
+            if n < 0 {
+                Ok(())
+            } else if n == 0 {
+                Err(NErr::throw("verif: fuel exhausted".to_string()))
+            } else {
+                f.set(n - 1);
+                Ok(())
+            }
+        })
+    }
+}
+
 // can "destructure"
 #[derive(Debug, Clone)]
 struct Plus;
